@@ -23,7 +23,7 @@ def constants(N, T, iters, eps, max_edges, fixed_mode="any", variant="succ", emi
 
 def model_check(ctx, name, invariants=ALL_INVARIANTS, workers=16, **consts):
     cfg = ctx.write_cfg(name + ".cfg", constants=constants(**consts), invariants=invariants)
-    return ctx.tlc("Constrain", cfg, workers=workers,
+    return ctx.tlc("Constrain", cfg, workers=workers, timeout=900 if ctx.quick else 3000,
                    required_actions=("Choose", "Force") + (("Project",) if max(consts["iters"]) > 0 else ()))
 
 
